@@ -185,7 +185,7 @@ func (db *MultiBucketBackend) getBucketWithFilePrefixLocked(bucket string, prefi
 			size := entry.Size()
 			mtime := entry.ModTime()
 
-			meta, err := db.metaStore.loadMeta(bucket, objectPath, size, mtime)
+			meta, err := db.metaStore.loadMeta(bucket, objectPath, size, mtime, db.bucketFs, path.Join(bucket, objectPath))
 			if err != nil {
 				return nil, err
 			}
@@ -232,7 +232,7 @@ func (db *MultiBucketBackend) getBucketWithArbitraryPrefixLocked(bucket string, 
 
 		size := info.Size()
 		mtime := info.ModTime()
-		meta, err := db.metaStore.loadMeta(bucket, objectName, size, mtime)
+		meta, err := db.metaStore.loadMeta(bucket, objectName, size, mtime, db.bucketFs, objectPath)
 		if err != nil {
 			return err
 		}
@@ -400,7 +400,7 @@ func (db *MultiBucketBackend) HeadObject(bucketName, objectName string) (*gofake
 
 	size, mtime := stat.Size(), stat.ModTime()
 
-	meta, err := db.metaStore.loadMeta(bucketName, objectName, size, mtime)
+	meta, err := db.metaStore.loadMeta(bucketName, objectName, size, mtime, db.bucketFs, path.Join(bucketName, objectName))
 	if err != nil {
 		return nil, err
 	}
@@ -467,7 +467,7 @@ func (db *MultiBucketBackend) GetObject(bucketName, objectName string, rangeRequ
 		rdr = limitReadCloser(rdr, f.Close, rnge.Length)
 	}
 
-	meta, err := db.metaStore.loadMeta(bucketName, objectName, size, mtime)
+	meta, err := db.metaStore.loadMeta(bucketName, objectName, size, mtime, db.bucketFs, path.Join(bucketName, objectName))
 	if err != nil {
 		return nil, err
 	}
